@@ -755,7 +755,7 @@ def gen_bcase(rng, idx, want=None):
     anc = [""] + anc                                                  # '' = $R itself (above the module)
     decoys = []
     if mode == "search":
-        cfgdir = want.get("cfgdir") or rng.choice(anc + [cwd, cwd])
+        cfgdir = cwd if want.get("samedir") else (want.get("cfgdir") or rng.choice(anc + [cwd, cwd]))
         cfgname = rng.choice([".mockery.yml", ".mockery.yaml"])
         if cfgname == ".mockery.yaml" and rng.random() < 0.4:
             decoys.append((cfgdir + "/.mockery.yml").lstrip("/"))
@@ -765,7 +765,7 @@ def gen_bcase(rng, idx, want=None):
     elif mode == "none":
         cfgdir, cfgname = "", ""
     else:
-        cfgdir = want.get("cfgdir") or rng.choice(anc + [cwd, "m/conf", "m/conf"])
+        cfgdir = cwd if want.get("samedir") else (want.get("cfgdir") or rng.choice(anc + [cwd, "m/conf", "m/conf"]))
         cfgname = rng.choice([".mockery.yml", "cfg.yml", "my.mockery.yaml"])
         if rng.random() < 0.4 and not (cfgdir == cwd and cfgname.startswith(".mockery")):
             decoys.append(cwd + "/" + rng.choice([".mockery.yml", ".mockery.yaml"]))
@@ -1006,24 +1006,60 @@ PROBE_RE = re.compile(rb"^// VERIF-MOCK (\S+) (\S+)$", re.M)
 PKG_RE = re.compile(rb"^package (\S+)", re.M)
 
 
+def b_link_setup(c, R):
+    """Symlinked spellings (c['link']): 'root'   - the case root R is a symlink (.../top -> phys/top): the working
+    directory, the module and the config are all reached through it; 'module' - the module root R/m is a
+    symlink to R/mreal.  Everything is then created and addressed through the logical spelling."""
+    if os.path.islink(R):
+        os.unlink(R)
+    shutil.rmtree(R, ignore_errors=True)
+    link = c.get("link")
+    if link == "root":
+        phys = os.path.dirname(R) + "/phys/" + os.path.basename(R)
+        shutil.rmtree(os.path.dirname(phys), ignore_errors=True)
+        os.makedirs(phys)
+        os.symlink("phys/" + os.path.basename(R), R)
+    elif link == "module":
+        os.makedirs(R + "/mreal")
+        os.symlink("mreal", R + "/m")
+
+
+def b_walk(R):
+    """files below R, named by their logical spelling (symlinked directories are followed once)"""
+    out = []
+    for d, _, fs in os.walk(R, followlinks=True):
+        if "/mreal" in d[len(R):] or "/phys" in d[len(R):] or "/cfglnk" in d[len(R):]:
+            continue
+        out += [os.path.join(d, f) for f in fs]
+    return out
+
+
 def b_run(ctx, c, R, schema_path, timeout=STALL):
     """Run mockery once. -> observation dict"""
-    shutil.rmtree(R, ignore_errors=True)
+    b_link_setup(c, R)
     P = b_materialize(c, R, schema_path)
-    before = set()
-    for d, _, fs in os.walk(R):
-        before.update(os.path.join(d, f) for f in fs)
+    before = set(b_walk(R))
     env = dict(os.environ, GOPROXY="off", GOFLAGS="-mod=mod")
     env.pop("MOCKERY_CONFIG", None)
     for k in list(env):
         if k.startswith("MOCKERY_"):
             env.pop(k)
     args = ["bash", "-c", 'ulimit -v %d; exec "$0" "$@"' % MEM_KB, ctx.bins["mockery"]]
-    if P["env"]:
-        env["MOCKERY_CONFIG"] = P["env"]
-    if P["flag"]:
-        args += ["--config", P["flag"]]
-    env["PWD"] = P["cwd"]
+    envv, flagv = P["env"], P["flag"]
+    if c.get("cfglink") and c["mode"] != "none":
+        # the config file is named through a symlinked directory
+        lnk = R + "/cfglnk"
+        os.symlink(os.path.dirname(P["cfg_abs"]), lnk)
+        spell = lambda v: (lnk + "/" + os.path.basename(v)) if v and go_clean(v if v.startswith("/") else P["cwd"] + "/" + v) == P["cfg_abs"] else v
+        envv, flagv = spell(envv), spell(flagv)
+    if envv:
+        env["MOCKERY_CONFIG"] = envv
+    if flagv:
+        args += ["--config", flagv]
+    if c.get("pwd") == "unset":
+        env.pop("PWD", None)          # the process then sees the physical working directory
+    else:
+        env["PWD"] = P["cwd"]         # as a shell does after `cd <logical path>`
     t0 = time.time()
     try:
         p = subprocess.run(args, cwd=P["cwd"], env=env, stdout=subprocess.PIPE, stderr=subprocess.PIPE, timeout=timeout)
@@ -1032,17 +1068,22 @@ def b_run(ctx, c, R, schema_path, timeout=STALL):
     except subprocess.TimeoutExpired:
         rc, hang, tail = None, True, "timeout after %.0f s" % timeout
     files = []
-    for d, _, fs in os.walk(R):
-        for f in fs:
-            full = os.path.join(d, f)
-            if full in before or not f.endswith(".go"):
-                continue
-            data = open(full, "rb").read()
-            m = PKG_RE.search(data)
-            mocks = [(a.decode("latin-1"), bn.decode("latin-1")) for a, bn in (PROBE_RE if c["probe"] else MOCK_RE).findall(data)]
-            files.append({"path": full, "pkg": m.group(1).decode("latin-1") if m else "", "mocks": mocks})
+    for full in b_walk(R):
+        if full in before or not full.endswith(".go"):
+            continue
+        data = open(full, "rb").read()
+        m = PKG_RE.search(data)
+        mocks = [(a.decode("latin-1"), bn.decode("latin-1")) for a, bn in (PROBE_RE if c["probe"] else MOCK_RE).findall(data)]
+        files.append({"path": full, "pkg": m.group(1).decode("latin-1") if m else "", "mocks": mocks})
     return {"rc": rc, "hang": hang, "secs": round(time.time() - t0, 2), "files": sorted(files, key=lambda f: f["path"]), "tail": tail,
             "cfgfiles": sorted(x for x in before if os.path.basename(x) in (".mockery.yml", ".mockery.yaml"))}
+
+
+def b_exact(c):
+    """The run is consistently spelled (logical working directory in PWD, config named directly): the oracle
+    and the model apply verbatim.  Otherwise (PWD unset below a symlink, config named through a symlink) the
+    spelling of absolute paths is mixed and placements are compared after resolving symlinks."""
+    return not (c.get("link") and c.get("pwd") == "unset") and not c.get("cfglink")
 
 
 def b_oracle(c, R, exp, obs):
@@ -1062,8 +1103,9 @@ def b_oracle(c, R, exp, obs):
         if exp[0] == "either":
             return [], None
         return ["expected mocks %r; exit %s: %s" % ([(p, real(s)) for p, _, s, _ in exp[1]], obs["rc"], obs["tail"][-400:])], "exit1"
-    got = {(f["path"], f["pkg"], s, i) for f in obs["files"] for s, i in f["mocks"]}
-    want = set(exp[1])
+    canon = (lambda x: x) if b_exact(c) else os.path.realpath
+    got = {(canon(f["path"]), f["pkg"], s, i) for f in obs["files"] for s, i in f["mocks"]}
+    want = {(canon(p_), pk, s, i) for p_, pk, s, i in exp[1]}
     if got != want:
         for w in sorted(want - got):
             fails.append("missing: interface %s as struct %s, package %s, in %s" % (real(w[3]), real(w[2]), w[1], w[0]))
@@ -1097,7 +1139,11 @@ def b_describe(c, R, obs=None, exp=None):
                     "source package": c["srcname"], "working directory": P["cwd"].replace(R, "$R"),
                     "config file": P["cfg_abs"].replace(R, "$R"), "found by": c["mode"],
                     "--config": P["flag"].replace(R, "$R"), "MOCKERY_CONFIG": P["env"].replace(R, "$R"),
-                    "other config files": ["$R/" + x for x in c["decoys"]], "parameters at": c["level"], "template": "probe (file://)" if c["probe"] else "testify"},
+                    "other config files": ["$R/" + x for x in c["decoys"]],
+                    "symlinks": {"root": "$R is a symlink to phys/top (working directory, module and config are reached through it)",
+                                 "module": "$R/m is a symlink to $R/mreal (the module root is a symlink target)"}.get(c.get("link"), "none"),
+                    "PWD": "unset (process sees the physical directory)" if c.get("pwd") == "unset" else "working directory as spelled",
+                    "config named through symlink $R/cfglnk": bool(c.get("cfglink")), "parameters at": c["level"], "template": "probe (file://)" if c["probe"] else "testify"},
          "parameters": {k: real(v) for k, v in c["params"].items()}}
     if exp is not None:
         d["documented"] = [exp[0]] + ([{"file": p.replace(R, "$R"), "package": pk, "struct": real(s), "interface": real(i)} for p, pk, s, i in exp[1]] if exp[0] in ("ok", "either") else [exp[1]])
@@ -1114,6 +1160,7 @@ def b_shrink(ctx, c, R, still_fails):
     trials = []
     if len(cur["names"]) > 1:
         trials += [("names", [n]) for n in cur["names"]]
+    trials += [(k, None) for k in ("cfglink", "pwd", "link") if cur.get(k)]
     if cur.get("srcfiles"):
         trials += [("srcfiles", [dict(f, pre="", mid="") for f in cur["srcfiles"]]), ("srcfiles", [dict(f, mid="") for f in cur["srcfiles"]])]
     trials += [("decoys", []), ("level", "root"), ("listed", False), ("probe", False)]
@@ -1220,7 +1267,30 @@ def check(ctx, only=None):
             c = gen_bcase(ctx.rng, i)
             if not in_class(c) and b_sane(c, R0):       # the main stream stays outside the known-finding class
                 bcases.append(c)
-        dbg("bcases", len(bcases), "draws", i)
+        # the same runs from a working directory that is reached through a symlink (PWD logical, as after `cd`, or
+        # unset), with the module root itself a symlink target, and with the config named through a symlink;
+        # every 6th main-stream case, plus dedicated InterfaceDirRelative cases (config next to the working
+        # directory, interface below it) together with their physical twin
+        variants = [{"link": "root"}, {"link": "module"}, {"link": "root", "pwd": "unset"}, {"link": "module", "pwd": "unset"}, {"cfglink": True}]
+        symcases = []
+        for j in range(0, len(bcases), 6):
+            v = variants[(j // 6) % len(variants)]
+            if bcases[j]["mode"] == "none" or (v.get("cfglink") and bcases[j]["mode"] not in ("flag_abs", "env_abs", "env_and_flag")):
+                v = variants[(j // 6) % 2]
+            symcases.append(dict(bcases[j], **v))
+        n_idr, t = (60 if ctx.thorough() else 10), 0
+        while n_idr > 0 and t < 4000:
+            t += 1
+            c = gen_bcase(ctx.rng, 200000 + t, want={"idr": True, "samedir": True})
+            if c["mode"] == "none" or in_class(c) or c["cwd"] == "m/" + c["pkgrel"] or not c["cwd"].startswith("m"):
+                continue
+            if not (b_sane(c, R0) and b_expect(c, R0)[0] == "ok"):
+                continue
+            n_idr -= 1
+            bcases.append(c)
+            symcases += [dict(c, link="root"), dict(c, link="module"), dict(c, **variants[2 + n_idr % 3])]
+        bcases += symcases
+        dbg("bcases", len(bcases), "of them symlinked spellings", len(symcases), "draws", i)
         # witness stream for the known finding: InterfaceDirRelative with working directory <> config directory
         for kf in known:
             if kf.get("witness", {}).get("bcase"):
@@ -1313,7 +1383,7 @@ def check(ctx, only=None):
     for k, ((c, wit), (R, exp, obs)) in enumerate(zip(allb, bres)):
         f, sym = b_oracle(c, R, exp, obs)
         nfiles = len({p for p, _, _, _ in exp[1]}) if exp[0] in ("ok", "either") else 0
-        b_terms.append(bcase_term(c, R, obs, nfiles))
+        b_terms.append(bcase_term(c, R, obs, nfiles) if b_exact(c) else None)   # mixed spellings: oracle only (after resolving symlinks)
         if wit:
             # the listed symptom: the output is what "relative to the working directory" gives
             symptom = "other"
@@ -1331,10 +1401,13 @@ def check(ctx, only=None):
             b_fail[k] = f
     if b_known:
         ctx.known("InterfaceDirRelative is relative to the working directory, not to ConfigDir (%d witness layouts)" % len(b_known))
-    b_bad, b_errs = coq_mismatches(ctx, MODH, b_terms, check="bmismatches") if b_terms else ([], [])
-    b_cls, e3 = coq_mismatches(ctx, MODH, b_terms, check="idr_class") if b_terms else ([], [])
+    tk = [k for k, t_ in enumerate(b_terms) if t_ is not None]
+    live_terms = [b_terms[k] for k in tk]
+    b_bad, b_errs = coq_mismatches(ctx, MODH, live_terms, check="bmismatches") if live_terms else ([], [])
+    b_cls, e3 = coq_mismatches(ctx, MODH, live_terms, check="idr_class") if live_terms else ([], [])
+    b_bad, b_cls = [tk[j] for j in b_bad], [tk[j] for j in b_cls]
     b_errs += e3
-    py_cls = [k for k, ((c, wit), (R, _, _)) in enumerate(zip(allb, bres)) if b_in_idr_class(c, R)]
+    py_cls = [k for k in tk if b_in_idr_class(allb[k][0], bres[k][0])]
 
     # ---------------- classification
     for i in sorted(d_fail)[:3]:
@@ -1406,6 +1479,9 @@ def check(ctx, only=None):
                 form = "none" if not d else ("/*line*/" if d.startswith("/*") else "//line") + (" absolute" if "$" in d else (" other directory" if "/" in d.split(":")[0].split(" ", 1)[-1] else " same directory"))
                 hist.setdefault("line_directives", {}).setdefault(kind, {})
                 hist["line_directives"][kind][form] = hist["line_directives"][kind].get(form, 0) + 1
+        sp = ("cwd through symlinked %s, PWD %s" % (c["link"], c.get("pwd") or "logical")) if c.get("link") else ("config named through a symlink" if c.get("cfglink") else "physical")
+        hist.setdefault("spelling", {})
+        hist["spelling"][sp] = hist["spelling"].get(sp, 0) + 1
         hist.setdefault("source_files_per_package", {})
         nsf = str(len(b_srcfiles(c)))
         hist["source_files_per_package"][nsf] = hist["source_files_per_package"].get(nsf, 0) + 1
@@ -1422,7 +1498,7 @@ def check(ctx, only=None):
     samples = [d_replay(c, root) | {"observed": o["k"]} for c, o in list(zip(dcases, outs))[12:14]] + \
               [b_describe(c, R, obs, exp) for (c, _), (R, exp, obs) in list(zip(allb, bres))[:2]]
     ctx.write_evidence(gate, len(dcases) + len(allb), len(nontriv) + len(nontriv_b),
-                       "resolver calls: seeded values (literals, variables, pipelines of the modelled functions, references through StructName, escaping chains of depth 1..25 around the cap, self references, malformed templates) in all five parameters, non-trivial = at least one value changed or an error; binary runs: seeded layouts (config next to / above the working directory, found by search, --config, MOCKERY_CONFIG; interface file 1-3 levels deep; packages with a plain source file and one or two files carrying //line and /*line*/ directives before the package clause and between declarations, naming files in the same, a sibling (existing) or an absolute directory; exported and unexported interfaces), every run counted; distinct by full input",
+                       "resolver calls: seeded values (literals, variables, pipelines of the modelled functions, references through StructName, escaping chains of depth 1..25 around the cap, self references, malformed templates) in all five parameters, non-trivial = at least one value changed or an error; binary runs: seeded layouts (config next to / above the working directory, found by search, --config, MOCKERY_CONFIG; interface file 1-3 levels deep; packages with a plain source file and one or two files carrying //line and /*line*/ directives before the package clause and between declarations, naming files in the same, a sibling (existing) or an absolute directory; working directory / module root / config path reached through symlinks with PWD logical or unset; exported and unexported interfaces), every run counted; distinct by full input",
                        samples,
                        extra={"histogram": hist, "resolver_calls": len(dcases), "binary_runs": len(allb), "witness_runs": len(witnesses_b),
                               "resolver_mismatches": len(d_bad), "run_mismatches": len(b_bad), "oracle_failures": len(d_fail) + len(b_fail),
